@@ -232,6 +232,24 @@ func (c *panicClient) dischargeIndex(e *Engine, st *State, base, idx ast.Expr) (
 		}
 		return false, fmt.Sprintf("len(%s) >= %d is not known here", exprStr(base), v+1)
 	}
+	// s[i] with i := strings.Index*(s, sep) known >= 0 and s not assigned in between: the library returns -1 or the
+	// index of an occurrence, which lies inside s
+	{
+		var call *ast.CallExpr
+		switch v := ast.Unparen(idx).(type) {
+		case *ast.Ident:
+			call, _ = ast.Unparen(c.p.DefExpr(v)).(*ast.CallExpr)
+		case *ast.CallExpr:
+			call = v // the index variable already looked through
+		}
+		if bo := objOf(info, base); bo != nil && call != nil && len(call.Args) == 2 && objOf(info, call.Args[0]) == bo {
+			if f := Callee(info, call); f != nil && f.Pkg() != nil && f.Pkg().Path() == "strings" && (strings.HasPrefix(f.Name(), "Index") || strings.HasPrefix(f.Name(), "LastIndex")) {
+				if fct := e.FactOf(st, idx); fct != nil && fct.Lo != nil && *fct.Lo >= 0 && c.unassignedBetween(call, base, bo) {
+					return true, "I-found: the index strings.Index* reported for this very string, known not to be -1"
+				}
+			}
+		}
+	}
 	// i := len(e) - k held in a variable
 	if ki, kb := e.CanonSt(st, idx), e.CanonSt(st, base); ki.OK && kb.OK {
 		if sk, ok := e.SoftKey(st, idx); ok {
@@ -1253,4 +1271,55 @@ func (p *Program) scannerTextOf(x, sc ast.Expr) bool {
 		})
 	}
 	return !stored
+}
+
+// unassignedBetween: from and to lie in the same statement list (to possibly nested in a later statement) and no
+// statement from the one holding from up to the one holding to assigns the variable.
+func (c *panicClient) unassignedBetween(from, to ast.Node, v types.Object) bool {
+	info := c.p.Info
+	// the statement list that directly holds the statement of from
+	var stmt ast.Node = from
+	for stmt != nil {
+		par := c.p.Parent(stmt)
+		if blk, ok := par.(*ast.BlockStmt); ok {
+			start := -1
+			for i, s := range blk.List {
+				if s == stmt {
+					start = i
+				}
+			}
+			if start < 0 {
+				return false
+			}
+			for _, s := range blk.List[start:] {
+				holds := s.Pos() <= to.Pos() && to.End() <= s.End()
+				written := false
+				ast.Inspect(s, func(n ast.Node) bool {
+					if n != nil && holds && n.Pos() >= to.End() {
+						return false // after the use
+					}
+					if as, ok := n.(*ast.AssignStmt); ok && as != stmt {
+						for _, l := range as.Lhs {
+							if objOf(info, l) == v {
+								written = true
+							}
+						}
+					}
+					if u, ok := n.(*ast.UnaryExpr); ok && u.Op == token.AND && objOf(info, u.X) == v {
+						written = true
+					}
+					return true
+				})
+				if written {
+					return false
+				}
+				if holds {
+					return true
+				}
+			}
+			return false
+		}
+		stmt = par
+	}
+	return false
 }
